@@ -15,6 +15,7 @@ import (
 	"io/ioutil"
 	"os"
 	"sync"
+	"time"
 
 	"github.com/makiuchi-d/gozxing/verifhook"
 )
@@ -38,7 +39,10 @@ type Result struct {
 	StateVars  int        `json:"state_vars"`
 	PerTask    []uint64   `json:"per_task_yields,omitempty"`
 	SiteHits   [][2]uint32 `json:"site_hits,omitempty"`
+	Stalled    bool       `json:"stalled"` // no task executed a yield point for stallLimit: deadlock or a stuck task
 }
+
+const stallLimit = 15 * time.Second
 
 func isBudget(r interface{}) bool { return r == interface{}(verifhook.ErrBudget) }
 
@@ -49,6 +53,7 @@ func main() {
 	in := flag.String("in", "", "trace file")
 	out := flag.String("out", "", "result file")
 	repo := flag.String("repo", "", "scratch repo dir (for test images)")
+	onlyTask := flag.Int("task", -1, "solo mode: run only this task's script (fresh process per task)")
 	flag.Parse()
 	findAztec(*repo)
 	var tr Trace
@@ -66,7 +71,12 @@ func main() {
 	res := &Result{Mode: *mode}
 	switch *mode {
 	case "solo":
-		for _, script := range tr.Tasks {
+		for ti, script := range tr.Tasks {
+			if *onlyTask >= 0 && ti != *onlyTask {
+				res.Digests = append(res.Digests, nil)
+				res.OpYields = append(res.OpYields, nil)
+				continue
+			}
 			inst := newInstances()
 			var ds []string
 			var ys []uint64
@@ -104,6 +114,26 @@ func main() {
 				verifhook.TaskEnd(int32(i))
 			}(i)
 		}
+		// stall detector: under the baton exactly one task runs; if the global
+		// yield counter stops moving, that task is blocked for real (a library
+		// lock that is never released, a wait that is never signalled) and no
+		// other task can ever run: report instead of hanging
+		go func() {
+			last, since := verifhook.YieldCount(), time.Now()
+			for {
+				time.Sleep(500 * time.Millisecond)
+				if y := verifhook.YieldCount(); y != last {
+					last, since = y, time.Now()
+				} else if time.Since(since) > stallLimit {
+					res.Stalled = true
+					rep := verifhook.GetReport()
+					res.Yields, res.Switches, res.Log = rep.Yields, rep.Switches, rep.Log
+					b, _ := json.Marshal(res)
+					ioutil.WriteFile(*out, b, 0644)
+					os.Exit(0)
+				}
+			}
+		}()
 		verifhook.Start()
 		verifhook.WaitDone()
 		wg.Wait()
